@@ -61,6 +61,9 @@ FIRST = {
     'c05-C05': 'caught', 'c09-C09': 'caught', 'c18-C18': 'caught', 'c20-C20': 'caught',
     'd05-C12': 'caught', 'd10-C19': 'caught',
     'd02-C07': 'missed -> P1 (Python half): the re-read of the full dict by the prefix keys is on every path that leaves the branch normally',
+    'd08-C16': 'caught (the same change as b08, written independently)',
+    'd03-C08': 'missed -> M5b namespace-of-every-treespec-met (every namespace read from another treespec flows, through the reconciling locals, into the result)',
+    'd04-C11': 'missed -> S1 flags-only-from-state (FromPickleable writes none_is_leaf and namespace once each, from their state positions, and never touches them again)',
     'c03-C03': 'missed by C03 (D2 reported it under C02 / C13) -> D2 now also decides C03',
     'c02-C02': 'missed by C02 (T3 reported it under C17 / C18) -> T1, T3, T3b now also decide C02',
     'c01-C01': 'missed by C01 (the same change as b10, written independently; DC1 reported it under C19) -> DC1 and DC4 now also decide C01',
